@@ -13,6 +13,12 @@
 (* plain, with --skip-schema-validation, and with other flags that must not  *)
 (* switch the gate off).  op.base is the action an operation dispatches to   *)
 (* (Schema!Dispatch); only op.skip may change what is expected.              *)
+(* History route (hist-<first>-<upgrade mode>, a seeded share + every case   *)
+(* with invalid values): the release was made with values no schema judged   *)
+(* (install with skip-schema-validation / of the schema-less chart of the    *)
+(* same version) and is upgraded with NO new values in the default, reuse,   *)
+(* reset-then-reuse and reset modes; the values in force are observed from a *)
+(* twin of the upgrade (dry run, gate off) and judged like any others.       *)
 (* The schemas are evaluated HERE (Schema!SchemaValid) on the observed       *)
 (* final values, so the verdict does not depend on the coalescing model.     *)
 (*                                                                           *)
@@ -51,10 +57,13 @@ CaseChecks(o) ==
 
 OpChecks(o, k) ==
   LET c   == S!CaseOfJ(o.case)
-      En  == Rng(o.enabled)
-      FinalAt(P) == Rng((CHOOSE f \in Rng(o.finals) : f.P = P).leaves)
-      Inv == S!InvalidObserved(c, En, FinalAt)
       op  == o.ops[k]
+      \* the values in force: the request's (observed once per case) or, on the history route, those the release
+      \* history carries into this operation (observed from the operation's twin)
+      En  == IF op.own THEN Rng(op.enabled) ELSE Rng(o.enabled)
+      Fin == IF op.own THEN op.finals ELSE o.finals
+      FinalAt(P) == Rng((CHOOSE f \in Rng(Fin) : f.P = P).leaves)
+      Inv == S!InvalidObserved(c, En, FinalAt)
       rej == Inv # {} /\ ~op.skip
       crds == \E P \in En : c.charts[S!ChartAt(c, P)].crds
   IN <<
@@ -79,6 +88,10 @@ OpChecks(o, k) ==
     [n |-> "C14_SkipOption", kind |-> "prop", v |-> (op.skip /\ op.base # "lint") => ~op.schemaErr, kf |-> ""],
     \* machinery: the harness labelled the operation with the action the specification says it dispatches to
     [n |-> "KnownOp", kind |-> "mach", v |-> op.mode \in S!AllModes /\ op.base = S!Dispatch(op.mode), kf |-> ""],
+    \* machinery (history route): the twin showed the values in force, and evaluator and library agree on them
+    [n |-> "TwinRuns", kind |-> "mach", v |-> op.own => op.twinOk, kf |-> ""],
+    [n |-> "EvalAgreesOp", kind |-> "mach",
+     v |-> (op.own /\ op.twinOk) => (Inv = {w.P : w \in {x \in Rng(op.lib) : ~x.valid}} /\ op.odd = 0), kf |-> ""],
     \* machinery: operations that the gate lets pass succeed, and a render is visible in the request log
     [n |-> "OpRuns", kind |-> "mach", v |-> (Inv = {} \/ (op.skip /\ op.base # "lint")) => (op.ok \/ op.schemaErr), kf |-> ""],
     [n |-> "ProbeLive", kind |-> "mach", v |-> (op.ok /\ op.base \in RealModes) => op.renders >= 1, kf |-> ""] >>
